@@ -58,7 +58,7 @@ CLAIMED = {
                 "3-link/3-sew faces that cannot be mirrored (closed/closed of different lengths, closed/open, open/open with different "
                 "numbers of darts ahead or behind) is refused with an error (C02_refusal, C02_refusal_sew) and a refused or failed call "
                 "changes nothing; removed darts are nobody's image. Tie: exhaustive WF 3-maps n<=3, glued-faces family, random and "
-                "polyhedra histories, composed transactions on the real CMap3 vs the model; WF and Mirror evaluated on the real map.",
+                "polyhedra histories, composed transactions on the real CMap3 vs the model; WF and Mirror evaluated on the real map. Props/C02b.lean: the two extra shape predicates used by the 3-D face clauses of C03/C20 — Sided (a face is 3-linked as a whole) and NoSelfGlue — are NOT invariants under C02's guards alone (decide-checked counterexample histories) and ARE preserved under the additional guard 'a 1-link joins two darts that are both 3-linked or both 3-free' (C02b_history_preserves_all).",
         "note": "Trusted: Lean kernel + 3 standard axioms; hand-written model (Model/Ops3.lean). Defect D1/D1b (three_link accepted "
                 "non-mirrorable faces) found and repaired (243b216).",
         "design_ref": "DESIGN.md §7 C02, §13",
@@ -73,9 +73,11 @@ CLAIMED = {
                 "Tie: polyhedral complexes (hexahedra, tetrahedra, prisms, pyramids; rings of tets/cubes closing around an edge), glued "
                 "faces families, histories and tx blocks with free-term attribute values on the real CMap3 vs the model; Python oracle "
                 "recomputes cells independently and checks placement, round trips and 'unsew succeeds on embedded meshes'.",
-        "note": "Trusted: Lean kernel + 3 standard axioms; hand-written model. NOT proved: cell-level identification for 2- and 3-(un)sews "
-                "(several simultaneous pairs), chains touching one cell twice (outside the property's proviso), 'unsew always succeeds on "
-                "an embedded mesh' (oracle only). Defects found and repaired: three_unsew max/min (af9cf00), D4 (f79acf8), D13 (e8bc83e).",
+        "note": "Trusted: Lean kernel + 3 standard axioms; hand-written model. Cell level (Props/C05Cells.lean, C05Cells2.lean): 1-sew/1-unsew on every "
+                "WF 4 map; 2-sew/2-unsew and 3-sew/3-unsew on closed faces (partitions = unions of the stated pairs, every computed id a "
+                "cell minimum, merged-into id = minimum of the united cell under the proviso). NOT proved: open-face arms of 2-/3-(un)sews at "
+                "cell level, the implication from the cell-level to the id-level proviso, 'unsew always succeeds on an embedded mesh' (oracle "
+                "only). Defects found and repaired: three_unsew max/min (af9cf00), D4 (f79acf8), D13 (e8bc83e).",
         "design_ref": "DESIGN.md §7 C05, §13",
     },
     "C03": {
@@ -86,10 +88,11 @@ CLAIMED = {
                 "yield exactly the ids of in-use darts; linear policies agree on closed cells; transactional = plain. Tie: exhaustive "
                 "WF 2-maps n<=4 x all darts x 14 policies x all id/iterator calls on the real CMap2 vs the model, plus an independent "
                 "Python closure oracle.",
-        "note": "Trusted: Lean kernel + 3 standard axioms; hand-written model. 3-D: vertex_id_transac returns the minimum of the vertex "
-                "cell on every WF 4 map (C05_vertexId3_is_cell_min, after repair of D13); the other 3-D clauses (CMap3 orbits, edge/face/"
-                "volume ids, iterators) are covered by the correspondence stream + Python closure oracle on exhaustive small 3-maps, glued "
-                "faces families and polyhedra (defects D13, D14 found this way were repaired).",
+        "note": "Trusted: Lean kernel + 3 standard axioms; hand-written model. 3-D (Props/C03b.lean, 50 theorems): C03_orbit3_spec for every policy and "
+                "Custom slice; vertex/edge/volume ids = cell minima and iterators on EVERY WF 4 map (after repair of D13); face ids under "
+                "FaceScope = Mirror + 'a dart is 3-free iff its successor is' — weaker than the property's 'glued faces closed and mirrored' "
+                "(closedness not needed; both conditions necessary, counterexamples on the real code in the file); linear policies on closed "
+                "cells; transactional = plain. Defects D13, D14 found by the tie and repaired. Not claimed: face ids outside FaceScope",
         "design_ref": "DESIGN.md §7 C03, Appendix A2",
     },
     "C04": {
@@ -136,7 +139,10 @@ CLAIMED = {
                 "parameters and agreement of the three descriptor forms; zero count (after the fix: commit 9dd602d). Tie: exhaustive size "
                 "boxes on the real builders vs the model (full snapshots) + independent Python oracle.",
         "note": "Trusted: Lean kernel + 3 standard axioms; translator gen_lean.py (regex-level, fails loudly); hand-written builder loops. "
-                "Not proved: 3-D vertex coordinates, float ceil/division in the third descriptor form (validated by the oracle).",
+                "Props/C12b.lean: 3-D vertices <-> lattice points with exact coordinates for all sizes, volumes, vertex/edge/face counts of "
+                "the 2-D grids and vertex/volume counts in 3-D, build() total; the third descriptor form: computed count = ceil(L/l) or one "
+                "less, exact iff the rounded quotient exceeds ceil(L/l)-1 (any monotone rounding fixing the integers). NOT proved: that "
+                "IEEE division is such a rounding; 3-D edge/face counts; u32 wrap-around.",
         "design_ref": "DESIGN.md §7 C12, §3.4",
     },
     "C19": {
@@ -160,9 +166,12 @@ CLAIMED = {
                 "bevy App (MinimalPlugins) runs the REAL extract_data_from_map / _3d_map systems (harness-render); the dumped world is "
                 "diffed against the model's scene on exhaustive WF 2-maps n<=4, 3-maps n<=3, meshes, edit histories, polyhedra; "
                 "independent Python oracle; normals checked finite/unit on the real output.",
-        "note": "Trusted: Lean kernel + 3 standard axioms; bevy ECS command application; hook cfg(honeycomb_verif) accessors for Dart. Not "
-                "proved: normal vectors (oracle only; known finding D20a: NaN face normals at straight corners in 3-D), 3-D dart end / "
-                "corner order / two-sided enumeration (correspondence only).",
+        "note": "Trusted: Lean kernel + 3 standard axioms; bevy ECS command application; hook cfg(honeycomb_verif) accessors for Dart. Props/C20b.lean: "
+                "3-D dart ends, face corners, two-sided dart enumeration = face orbit, exactly one dart entity per in-use dart, no panic (under "
+                "Mirror + Sided (+ NoSelfGlue): Mirror is preserved by the API, C02; Sided/NoSelfGlue under the extra guard of C02b); a "
+                "self-glued face provably gets every dart entity twice; exact normals over Q: zero normal iff the corner is straight "
+                "(C20_D20a_zero_normal_iff = known finding D20a: NaN FaceNormals), plane normal of the scene = cross product of the map's "
+                "coordinates. NOT proved: f32 normalisation (oracle), sum of face normals at a VolumeNormals vertex.",
         "design_ref": "DESIGN.md §7 C20",
     },
     "C07": {
@@ -194,9 +203,11 @@ CLAIMED = {
                 "accepted (after repair of D7, commit 00af791). Tie: convex/star/reflex-at-every-index/random simple polygons (4-10 sides, "
                 "both orientations, isolated and embedded) on the real kernels vs the model + exact Python oracle (triangle count, "
                 "orientation, area sum, adjacency, untouched faces, WF).",
-        "note": "Trusted: Lean kernel + 3 standard axioms; hand-written kernel models. NOT proved: ear clipping succeeds on every simple "
-                "polygon in general position (two-ears theorem), WF and exact face structure through the sew loops, unchanged coordinates "
-                "— all evaluated by the oracle on the real implementation.",
+        "note": "Trusted: Lean kernel + 3 standard axioms; hand-written kernel models. Props/C13b.lean: successful fan / fan_convex / earclip runs "
+                "preserve WF 3 (closed face, live distinct spare darts — necessary: on an open chain the final sew writes b1(0)); exact "
+                "structure after a fan (n-2 listed triangles, spare darts 2-linked pairwise, every side keeps its neighbour, frame); frame for "
+                "ear clipping. NOT proved: ear clipping succeeds on every simple polygon in general position (two-ears theorem), exact "
+                "triangle structure after ear clipping, coordinates of the surgery's triangles — evaluated by the oracle.",
         "design_ref": "DESIGN.md §7 C13",
     },
     "C14": {
@@ -206,8 +217,10 @@ CLAIMED = {
                 "vertex id of the i-th new dart (after repair of D11) and lies strictly between the end points in order over Q. Tie: every "
                 "edge of every WF 2-map n<=3 (+k spare darts, k<=3, natural and permuted order), grids, invalid inputs, tx blocks on the "
                 "real kernels vs the model; oracle: chain of k+1 segments on both sides, positions, frame incl. all images of dart 0.",
-        "note": "Trusted: Lean kernel + 3 standard axioms; hand-written kernel model. NOT proved: the exact beta chain/frame statement and "
-                "that the new darts lie in pairwise distinct vertices of the result (oracle only).",
+        "note": "Trusted: Lean kernel + 3 standard axioms; hand-written kernel model. Props/C14b.lean: exact b chain after insertion on both sides, "
+                "b2 pairing in reverse order, frame for every other image, new darts lie in pairwise distinct vertices {fh[t], sh[k-1-t]}, "
+                "position theorem with its side hypothesis discharged. NOT proved: that the vertex orbits of the two end points keep their "
+                "dart sets (oracle only).",
         "design_ref": "DESIGN.md §7 C14",
     },
     "C11": {
@@ -219,10 +232,12 @@ CLAIMED = {
                 "indices = positions of the C03 vertex ids. Tie: the real to_vtk_ascii/binary output is parsed back with vtkio and compared "
                 "with the model's piece; real imports through from_vtk_file (ascii and binary temp files) are compared with the model; "
                 "Python oracle compares meshes up to renumbering (faces as cyclic coordinate sequences, glued sides, boundary).",
-        "note": "Trusted: Lean kernel + 3 standard axioms; vtkio reader/writer outside the model. NOT proved: import of a conforming list "
-                "never panics; coordinates survive all sews; the export-import isomorphism. Known finding C11-crack: two 2-free darts "
-                "running between the same two vertices in opposite directions (a crack) are sewn by the round trip (the format carries "
-                "no adjacency; not repairable in the importer without changing the file contents).",
+        "note": "Trusted: Lean kernel + 3 standard axioms; vtkio reader/writer outside the model. Props/C11b.lean: import of a conforming list "
+                "returns Ok (no panic) with WF map, one b1 cycle per cell, coordinates preserved through all sews; Props/C11c.lean: for "
+                "exportable maps (closed faces of >= 3 sides, defined vertices, no repeated directed side) the round trip is an isomorphism "
+                "for b1, b2 and coordinates when there is no crack (C11_roundTrip_faces/_adjacency/_bijection), and a crack IS sewn "
+                "(C11_crack_is_sewn = known finding C11-crack: the format carries no adjacency). NOT proved: floating point (everything "
+                "over Q), that kernel-produced meshes are exportable, maps outside Exportable.",
         "design_ref": "DESIGN.md §7 C11",
     },
     "C15": {
@@ -237,7 +252,7 @@ CLAIMED = {
                 "decide witnesses and recorded as known findings (D9 swap averages corners; D15a,d,e,f,g collapse). Tie: every dart of "
                 "1x1..3x3 split grids x swap/cut/collapse, plain/anchored/multi-surface/pre-refined meshes, adaptive histories, tx blocks "
                 "on the real kernels vs the model; independent oracle on exact Fractions (triangles, counts, areas, coordinates, flags, "
-                "anchors, orientation).",
+                "anchors, orientation). Props/C15b.lean: b-level topology theorems on arbitrary WF maps for swap (twelve images, frame, triangles), outer and inner cut (spare darts placed as documented, pairings, frame), cells and face iterator after cut_outer_edge, midpoint at the vertex id in the FINAL map, and collapse_edge itself (interior edge, no anchors): WF unconditionally, exactly the six triangle darts flagged and free, neighbours re-glued, frame.",
         "note": "Partial: the property is FALSE on the current tree in the recorded ways (known findings D9, D15a, D15d, D15e, D15f, D15g, "
                 "each with a structural matcher; D15b, D15c repaired). NOT proved (oracle only): local topology after swap/cut on arbitrary "
                 "surrounding maps, global V/E/F counts, orientation of the whole fan after a collapse, that a successful collapse never sews "
@@ -252,7 +267,7 @@ CLAIMED = {
                 "(crossings are vertices, tiling, areas, coverage, orientation, clipping sides) are NOT theorems: they are evaluated by an "
                 "exact oracle (Fractions on the exact f64 values, explicit tolerances) on the REAL grisubal over generated simple polygons "
                 "and nested polygon sets in general position, cell sizes, three clip modes, mis-oriented variants. Tie for the modelled "
-                "parts: orient/grid-sizing commands answered by both drivers.",
+                "parts: orient/grid-sizing commands answered by both drivers. Props/C16Cross.lean: the intersection step for one segment (all three code paths, any grid, eps-general position) is modelled over Q and tied (new commands gcross/gchain; exact family compared as equal rationals): every reported crossing lies on the segment and on the named grid side, none is missed, strictly sorted, count = |di|+|dj| (the pre-allocated identifiers), one cell between consecutive crossings.",
         "note": "Partial: only the discrete sub-algorithms are proved; the pipeline (intersections, edge bookkeeping with HashMap-ordered dart "
                 "numbering, epsilon bands, clip closure - pub(crate), not reachable from the public API) is validated on the implementation, "
                 "not modelled. Known findings D16a (a boundary loop inside one cell is silently dropped) and D16b (negatively oriented "
@@ -267,7 +282,7 @@ CLAIMED = {
                 "Ok every vertex, edge and face id of in-use darts is anchored; mark_curve terminates, only writes Curve(c), keeps anchored "
                 "vertices, succeeds on closed boundaries and errs only when the walk leaves the boundary. Tie: classify on anchored grids, "
                 "every WF 2-map n<=3 x anchor patterns, real capture meshes re-loaded into both drivers, sew/unsew on anchored maps; the "
-                "capture phase itself (points of interest anchored to nodes, curves/surfaces) is evaluated by the oracle on the real code.",
+                "capture phase itself (points of interest anchored to nodes, curves/surfaces) is evaluated by the oracle on the real code. Props/C17Surf.lean: after Ok, faces reachable from each other without crossing a curve-anchored edge carry the same Surface id and two faces with the same id are linked by a chain of edges anchored to it (regions separated by curves get different ids).",
         "note": "Partial: classification proved, capture (geometry) validated by the oracle only; 'one surface id per connected set of faces' "
                 "not proved. Known finding D17a (loop inside one cell dropped, twin of D16a).",
         "design_ref": "DESIGN.md §7 C17",
@@ -304,7 +319,7 @@ def main():
             "guard": "--cfg honeycomb_verif",
             "enable": "RUSTFLAGS=--cfg honeycomb_verif via /verif/harness*/.cargo/config.toml",
             "baseline_off_cmd": BASE,
-            "source_commits": ["2c3a5c4", "dbd85ff"],
+            "source_commits": ["2c3a5c4", "dbd85ff", "1a6fc02"],
             "add_only": True,
         },
         "engines": [{
